@@ -108,7 +108,7 @@ CLAIMED = {
         text='Coq theorems: for EVERY sequence of timing lines the decoded timing/difficulty/effect points are strictly ordered (model of the pending/flush/binary-search-insert logic, tied word for word to the decoder on every run); objects and sounds are permuted by the same swaps (tandem sort = sort of the zipped lines) for every swap sequence; complete check of the tandem sort incl. sorter reuse on all 1093 small time patterns. NOT modelled: tokenisers, number parsers, encodings, slider path parsing, mania legacy sort - for those totality / io-errors-only / finiteness / clamps / bytes=str=path are decided by the byte-level oracle only (partial).',
         tech='Coq invariant proof over a decoder bookkeeping model + word-exact correspondence + byte-level well-formedness oracle'),
     "C19": dict(
-        text='Coq theorems: mania key count = key mod or within 4..7 for every cs/od/object mix (model tied to the code); a note placed through column_to_pos is read back in its column (clamped and unclamped quotient) for all key counts 1..10 and no integral x maps to a column at or above the key count for 1..18 (complete finite checks over the f32 model, tied to ManiaObject::column); taiko objects/sounds spliced in lock step and sorted in tandem keep one sound per object; effect points stay strictly ordered. the taiko slider splitting (split decision and tick loop) is modelled bit-exactly and compared with the real conversion on every run; proved with Flocq: a split slider is replaced by at least one hit, the first at its own start, all finite and in time order (the branch that removes the slider is dead). NOT modelled: mania pattern choice, slider geometry - decided by the direct oracle over generated osu! maps x targets x key mods (partial). Random columns: both pseudo random generators are modelled (tied to the code by recorded call sequences); Random::next_int_range is proved exact in binary64 (Flocq) and within [lo, hi) for EVERY generator state, next_double within [0, 1); next_max(max) of the .NET generator within [0, max) for every sample below i32::MAX; the .NET generator as a state machine: table entries within [-1, i32::MAX) is an invariant of internal_sample under which no i32 subtraction overflows, hence after ANY call sequence plain samples lie in [0, i32::MAX) and next_max in [0, max) (CRngProofs); seeding is proved to leave entries in the closed range [-1, i32::MAX] for every 32-bit seed, the strict bound is evaluated per seed of the recorded sequences (partial over seeds); the transcribed statements of csharp.rs are regenerated from the source and required verbatim (prng_facts).',
+        text='Coq theorems: mania key count = key mod or within 4..7 for every cs/od/object mix (model tied to the code); a note placed through column_to_pos is read back in its column (clamped and unclamped quotient) for all key counts 1..10 and no integral x maps to a column at or above the key count for 1..18 (complete finite checks over the f32 model, tied to ManiaObject::column); taiko objects/sounds spliced in lock step and sorted in tandem keep one sound per object; effect points stay strictly ordered. the taiko slider splitting (split decision and tick loop) is modelled bit-exactly and compared with the real conversion on every run; proved with Flocq: a split slider is replaced by at least one hit, the first at its own start, all finite and in time order (the branch that removes the slider is dead). NOT modelled: mania pattern choice, slider geometry - decided by the direct oracle over generated osu! maps x targets x key mods (partial). Random columns: both pseudo random generators are modelled (tied to the code by recorded call sequences); Random::next_int_range is proved exact in binary64 (Flocq) and within [lo, hi) for EVERY generator state, next_double within [0, 1); next_max(max) of the .NET generator within [0, max) for every sample below i32::MAX; the .NET generator as a state machine: table entries within [-1, i32::MAX) is an invariant of internal_sample under which no i32 subtraction overflows, hence after ANY call sequence plain samples lie in [0, i32::MAX) and next_max in [0, max) (CRngProofs); seeding is proved to leave entries in the closed range [-1, i32::MAX] for every 32-bit seed, the strict bound is evaluated per seed of the recorded sequences (partial over seeds); the transcribed statements of csharp.rs and osu.rs are regenerated from the source and required verbatim (prng_facts).',
         tech='Coq proofs over column/key-count models + correspondence + structural oracle on conversions'),
     "C11": dict(
         text="Coq theorems (unbounded op sequences) that the compact strain list refines a plain list, that transmute_into_vec's "
